@@ -194,10 +194,16 @@ func (c *compiler) stmt(cb *cbuild, self int, s *Stmt, path []any, idx int) {
 		a.syscall(interopnames.SystemStorageGetContext)
 		a.syscall(interopnames.SystemStorageDelete)
 	case "notify":
+		// the event carries a COMPOUND argument, [n], to which the contract keeps a reference and which it overwrites
+		// right after emitting the event: an event says what it said when it was emitted
 		a.pushInt(int64(s.N))
+		a.op(opcode.PUSH1, opcode.PACK, opcode.DUP)
 		a.op(opcode.PUSH1, opcode.PACK)
 		a.pushString(evName)
 		a.syscall(interopnames.SystemRuntimeNotify)
+		a.op(opcode.PUSH0)
+		a.pushInt(99)
+		a.op(opcode.SETITEM)
 	case "throw":
 		a.pushString("x")
 		a.op(opcode.THROW)
@@ -419,7 +425,7 @@ func Compile(root []Stmt, name string, sender, payer util.Uint160) (*Compiled, e
 				manifest.NewParameter("data", smartcontract.AnyType),
 			},
 		})
-		m.ABI.Events = []manifest.Event{{Name: evName, Parameters: []manifest.Parameter{manifest.NewParameter("n", smartcontract.IntegerType)}}}
+		m.ABI.Events = []manifest.Event{{Name: evName, Parameters: []manifest.Parameter{manifest.NewParameter("n", smartcontract.ArrayType)}}}
 		m.Permissions = []manifest.Permission{*manifest.NewPermission(manifest.PermissionWildcard)}
 		out.Contracts[i] = &neotest.Contract{
 			Hash:     state.CreateContractHash(sender, ne.Checksum, m.Name),
